@@ -30,6 +30,19 @@ CHECKS = {
              "Known divergences are listed in known_findings.json with their extent in findings_extent/C18.json.",
         technique="TLA+ transducer spec model-checked by TLC; TLC-exported emission tables replayed into Compact/Indent/HTMLEscape/Valid",
         engine="JsonTransform", design="8/C18"),
+    "C09": dict(
+        level="model_checking",
+        text="StreamDecoder.tla models the refillable window (read with optional doubling, consume, in-place unescape, reset) over "
+             "document byte positions; TLC checks conservation of bytes, the NUL sentinel, index bounds, growth and refinement to the "
+             "index arithmetic (StreamIdx.tla) for every reader schedule on small constants. Binding: (A) ~330 (destination, document) "
+             "pairs x every single cut / pair of cuts / piece size 1..17 / refill-boundary padding / reader failure position are "
+             "replayed through a scripted io.Reader and compared with Unmarshal and with encoding/json's Decoder (More, InputOffset, "
+             "Token); (B) hook events of read()/reset() recorded during those runs are validated by TLC against StreamTrace.tla, "
+             "which re-checks every recorded step against the specification's arithmetic.",
+        note="trusted: TLC, the JsonText automaton for naming the token a cut falls into, encoding/json's Decoder as yardstick for "
+             "More/InputOffset/Token. Hooks: internal/decoder/stream.go read()/reset() (build tag verif).",
+        technique="TLA+ window-protocol spec model-checked by TLC; scripted-reader schedule replay; TLC trace validation of hook events",
+        engine="StreamDecoder", design="8/C09"),
 }
 
 NOT_YET = "check not built yet in this round; planned (see DESIGN.md section 8)"
@@ -74,8 +87,10 @@ def main():
 
 
 NA = {}
-HOOK_COMMITS = []
+HOOK_COMMITS = ["cb16685"]
 ENGINES = [
+    dict(name="StreamDecoder", path="specs/StreamDecoder.tla", serves_properties=["C09"],
+         kind_free_text="TLA+ model of the stream window (StreamDecoder.tla + StreamIdx.tla) and trace specification StreamTrace.tla"),
     dict(name="JsonTransform", path="specs/JsonTransform.tla", serves_properties=["C18"],
          kind_free_text="TLA+ Compact/Indent transducers over JsonText; TLC invariants (idempotence, composition) and table export"),
     dict(name="JsonText", path="specs/JsonText.tla", serves_properties=["C05", "C18"],
